@@ -43,6 +43,16 @@ META = {
   design_ref="DESIGN.md section 3, C14",
   note="'params plus only-later modules' is accepted either way (the statement does not say whether params counts as an existing input).",
   technique="rapid random generation against a validity predicate"),
+ "C15": dict(
+  text="Differential random testing of the two filter evaluators on generated expressions (and / implicit and / or / parentheses, bare and quoted keys) and key-to-block assignments: bitmap result contains b <=> per-block evaluation on b's own keys <=> the meaning of the harness' AST; BlockIndex.Skip vs SkipFromKeys; input bitmaps unchanged across repeated and interleaved evaluations; '-' operator rejected; thorough adds coverage-guided native fuzzing of the parser string with the same differential inside the target.",
+  design_ref="DESIGN.md section 3, C15",
+  note="Evaluator level in this commit; the end-to-end part (index present/absent/being built through tier1/tier2) comes with the end-to-end world.",
+  technique="rapid random generation, differential (bitmap vs per-block evaluator) + native go fuzzing"),
+ "C17": dict(
+  text="Structure-aware random generation of tier1 and tier2 requests with every field of every module free, plus valid generated graphs with one field broken, run through the server's sequence (ValidateTier1/2Request, exec.NewOutputModuleGraph incl. hashing and staging, BuildRequestDetails, BuildTier1RequestPlan): every call must return without panic, within 10 s, allocating < 256 MiB.",
+  design_ref="DESIGN.md section 3, C17",
+  note="Requests are encoded to the wire and decoded again, so only shapes a client can actually send are judged; the tier2 stage index is kept in range (not in the property's list).",
+  technique="rapid structure-aware random generation with crash/hang/allocation oracle"),
  "C18": dict(
   text="Differential round-trip random testing of the hand-written codecs against google.golang.org/protobuf: Map.MarshalFast -> proto.Unmarshal(Array), proto.Marshal(Array) -> Map.UnmarshalFast, fast round trip; every store marshaller reads back what it wrote; VTproto/ProtoingFast bytes decode with proto.Unmarshal and proto.Marshal bytes decode with the VTproto decoder; reported size == sum(len k+len v).",
   design_ref="DESIGN.md section 3, C18",
